@@ -22,8 +22,14 @@ ASSUMPTIONS = ["single input/output port per node, as in the property; multi-key
                "against the model only (NotImplementedError path), without an oracle verdict"]
 
 
+BIG = [100000, 200000, 300000, 1 << 20, 10 ** 9, (1 << 40) + 1, (1 << 53) + 1]
+
+
 def rand_shape(rng):
-    return [rng.choice([1, 2, 3, 4]) for _ in range(rng.choice([0, 1, 1, 2, 2, 3, 4]))]
+    sh = [rng.choice([1, 2, 3, 4]) for _ in range(rng.choice([0, 1, 1, 2, 2, 3, 4]))]
+    if sh and rng.random() < 0.15:       # large axes: an off-by-one there is a tiny RELATIVE difference
+        sh[rng.randrange(len(sh))] = rng.choice(BIG)
+    return sh
 
 
 def rand_ty(rng, key, base):
@@ -36,7 +42,8 @@ def rand_ty(rng, key, base):
     if r < 0.2:
         sh = list(base)
         if sh and rng.random() < 0.6:
-            i = rng.randrange(len(sh)); sh[i] += rng.choice([1, -1]) if sh[i] > 1 else 1
+            big = [j for j, x in enumerate(sh) if x >= 100000]
+            i = rng.choice(big) if big else rng.randrange(len(sh)); sh[i] += rng.choice([1, -1, 2]) if sh[i] > 1 else 1
         else:
             sh = sh + [1] if rng.random() < 0.5 else sh[:-1] if sh else [1]
         return [[key, sh]]
@@ -67,6 +74,16 @@ def gen(rng, tier):
                             nodes[nm] = leaf(t, tout)
                         cases.append({"kind": "exh", "nodes_t": [[nm, nodes[nm]["set_types"]] for nm in nodes],
                                       "edges": [list(e) for e in es]})
+    # near-equal large shapes: one axis differs by 1 or 2 out of >= 1e5 (equal only under a relative tolerance)
+    for _ in range(60 if tier == "quick" else 600):
+        base = [rng.choice([1, 2, 3]) for _ in range(rng.choice([1, 1, 2, 3]))]
+        i = rng.randrange(len(base)); base[i] = rng.choice(BIG)
+        other = list(base); other[i] += rng.choice([1, -1, 2, -2, 0])
+        f1 = (lambda s: {"seq": list(s)}) if rng.random() < 0.2 else (lambda s: list(s))
+        tys = [["a", {"in": [["input", f1(base)]], "out": [["output", f1(base)]]}],
+               ["b", {"in": [["input", f1(other)]], "out": [["output", f1(other)]]}]]
+        edges = rng.choice([[["a", "b"]], [["a", "a"], ["a", "b"]], [["a", "b"], ["b", "a"]], [["b", "b"], ["a", "b"], ["a", "b"]]])
+        cases.append({"kind": "rand", "nodes_t": tys, "edges": edges})
     if tier == "thorough":
         N = 3000
     else:
@@ -94,7 +111,18 @@ def gen(rng, tier):
             if rng.random() < 0.1:
                 edges.append([a, b])
         rng.shuffle(edges)
-        cases.append({"kind": "rand", "nodes_t": tys, "edges": edges})
+        c = {"kind": "rand", "nodes_t": tys, "edges": edges}
+        if rng.random() < 0.3:
+            # a history on ONE graph object: check, re-assign some node types (names and edges unchanged), check again
+            tys2 = []
+            for nm, t in tys:
+                if rng.random() < 0.4:
+                    b2 = base if rng.random() < 0.6 else rand_shape(rng)
+                    tys2.append([nm, {"in": rand_ty(rng, "input", b2), "out": rand_ty(rng, "output", b2)}])
+                else:
+                    tys2.append([nm, t])
+            c["then"] = tys2
+        cases.append(c)
     return cases
 
 
@@ -116,9 +144,9 @@ def defined_shape(t):
     return list(v["seq"]) if isinstance(v, dict) else list(v)
 
 
-def oracle_verdict(c):
+def oracle_verdict(c, which="nodes_t"):
     """True / False (must raise) / None (outside the single-port quantifier)"""
-    tys = dict((nm, t) for nm, t in c["nodes_t"])
+    tys = dict((nm, t) for nm, t in c[which])
     ok = True
     for a, b in c["edges"]:
         if a not in tys or b not in tys:
@@ -155,6 +183,23 @@ def run(c):
         fail = f"every edge is consistent but _check_types() gave {obs}: types {c['nodes_t']} edges {c['edges']}"
     elif want is False and obs[0] == "ok":
         fail = f"_check_types() returned {obs[1]!r} although an edge is mismatched/undefined/dangling: types {c['nodes_t']} edges {c['edges']}"
-    sig = repr((c["nodes_t"], c["edges"]))
+    if not fail and "then" in c:
+        from ..values import mat_ty
+        for nm, t in c["then"]:
+            g.nodes[nm].input_type = mat_ty(t["in"])
+            g.nodes[nm].output_type = mat_ty(t["out"])
+        try:
+            with quiet():
+                obs2 = ("ok", g._check_types())
+        except BaseException as e:  # noqa: BLE001
+            obs2 = ("err", type(e).__name__)
+        want2 = oracle_verdict(c, "then")
+        if want2 is True and obs2 != ("ok", True):
+            fail = (f"second check on the same graph object after re-assigning types: every edge is consistent but "
+                    f"_check_types() gave {obs2}: types {c['then']} edges {c['edges']} (first: {c['nodes_t']})")
+        elif want2 is False and obs2[0] == "ok":
+            fail = (f"second check on the same graph object after re-assigning types returned {obs2[1]!r} although an edge is "
+                    f"mismatched/undefined/dangling: types {c['then']} edges {c['edges']} (first: {c['nodes_t']})")
+    sig = repr((c["nodes_t"], c["edges"], c.get("then")))
     nontriv = len(c["edges"]) >= 2 or want is False
     return Outcome(coq, fail, nontriv, sig)
